@@ -339,6 +339,147 @@ def _helper_mismatch(ps, a, b):
     return verdict
 
 
+def _lex_spec(env, same_len=False):
+    """the set of results lexicographic `<` of two ranges can have under the answers in env (("end", side, k) / ("lt", side, k));
+    a question env does not answer is open (both answers), except that ranges of one static size end together"""
+    out = set()
+
+    def ask(e, key):
+        if key in e:
+            return [(e, e[key])]
+        if same_len and key[0] == "end":
+            other = ("end", "b" if key[1] == "a" else "a", key[2])
+            if other in e:
+                e2 = dict(e)
+                e2[key] = e[other]
+                return [(e2, e[other])]
+        res = []
+        for v in (True, False):
+            e2 = dict(e)
+            e2[key] = v
+            res.append((e2, v))
+        return res
+
+    def go(e, k):
+        if k > 6:
+            return
+        for (e1, ea) in ask(e, ("end", "a", k)):
+            for (e2, eb) in ask(e1, ("end", "b", k)):
+                if ea:
+                    out.add(not eb)
+                    continue
+                if eb:
+                    out.add(False)
+                    continue
+                for (e3, lab) in ask(e2, ("lt", "a", k)):
+                    if lab:
+                        out.add(True)
+                        continue
+                    for (e4, lba) in ask(e3, ("lt", "b", k)):
+                        if lba:
+                            out.add(False)
+                        else:
+                            go(e4, k + 1)
+    go(env, 0)
+    return out
+
+
+def _helper_iter_loop(ps, a, b, same_len=False):
+    """the helper walks both element ranges with iterators / pointers (`for (; ia != A.end() && ib != B.end(); ++ia, ++ib)`):
+    every decision is `position k of one side is its end` or `*(A.begin()+k) < *(B.begin()+k)` (either direction). Each
+    complete path's result must be the one the lexicographic specification gives under the path's own decisions:
+    k = 0, 1, ...: A exhausted -> (B not exhausted); B exhausted -> false; a_k < b_k -> true; b_k < a_k -> false; else next k.
+    (True, how) | (False, why) | None when the decisions have another shape."""
+    def side_of(p, evno):
+        e = p.events[evno - 1]
+        if len(e[1]) != 1:
+            return None
+        t = sx.show(e[1][0])
+        ina, inb = a in t, b in t
+        return "a" if ina and not inb else "b" if inb and not ina else None
+
+    def pos(p, txt):
+        """`((#i:begin + 1) + 1)` -> (side, 2)"""
+        txt = txt.replace(" ", "")
+        k = 0
+        while True:
+            m = re.match(r"^\((.+)\+1\)$", txt)
+            if not m:
+                break
+            txt, k = m.group(1), k + 1
+        m = re.match(r"^#(\d+):c?begin$", txt)
+        if not m or not p.events[int(m.group(1)) - 1][0].split("<")[0].split("::")[-1] in ("begin", "cbegin"):
+            return None
+        sd = side_of(p, int(m.group(1)))
+        return (sd, k) if sd else None
+    seen_any = False
+    for p in ps:
+        env = {}
+        feasible = True
+        for d, v in p.decisions:
+            t = sx.show(d)
+            m1 = re.match(r"^\((.+) (==|!=) #(\d+):c?end\)$", t)
+            m2 = re.match(r"^\(deref\((.+)\) < deref\((.+)\)\)$", t)
+            if m1:
+                ps_ = pos(p, m1.group(1))
+                es = side_of(p, int(m1.group(3)))
+                if ps_ is None or es is None:
+                    return None
+                if ps_[0] != es:
+                    return (False, "a position of the %s operand is compared with the end of the other operand (%s)" % ("left" if ps_[0] == "a" else "right", t))
+                key, val = ("end", es, ps_[1]), (v if m1.group(2) == "==" else not v)
+            elif m2:
+                l, r = pos(p, m2.group(1)), pos(p, m2.group(2))
+                if l is None or r is None:
+                    return None
+                if l[0] == r[0] or l[1] != r[1]:
+                    return (False, "the helper compares %s: a lexicographic comparison compares element k of one operand with element k of the other" % t)
+                key, val = ("lt", l[0], l[1]), v
+            else:
+                return None
+            seen_any = True
+            if key in env and env[key] != val:
+                feasible = False     # the same question answered differently: begin() / end() of an unchanged array are stable
+                break
+            env[key] = val
+        if not feasible or p.outcome[0] != "return":
+            continue
+        out = sx.show(p.outcome[1]).replace(" ", "")
+        cases = None
+        if out in ("true", "false", "0", "1"):
+            cases = [(env, out in ("true", "1"))]
+        else:
+            # the result is itself one undecided question (`return ia == A.end();`): both answers are separate cases
+            t = sx.show(p.outcome[1])
+            m1 = re.match(r"^\((.+) (==|!=) #(\d+):c?end\)$", t)
+            m2 = re.match(r"^\(deref\((.+)\) < deref\((.+)\)\)$", t)
+            key = None
+            if m1:
+                ps_, es = pos(p, m1.group(1)), side_of(p, int(m1.group(3)))
+                if ps_ is not None and es is not None and ps_[0] == es:
+                    key = ("end", es, ps_[1])
+            elif m2:
+                l, r = pos(p, m2.group(1)), pos(p, m2.group(2))
+                if l is not None and r is not None and l[0] != r[0] and l[1] == r[1]:
+                    key = ("lt", l[0], l[1])
+            if key is None:
+                return None
+            cases = []
+            for val in ((env[key],) if key in env else (True, False)):
+                e2 = dict(env)
+                e2[key] = val
+                cases.append((e2, (val if (not m1 or m1.group(2) == "==") else not val)))
+        for (env, got) in cases:
+            rs = _lex_spec(env, same_len)
+            if rs != {got}:
+                return (False, "with %s the lexicographic comparison is %s but the helper returns %s" % (
+                    ", ".join("%s(%s,%d)=%s" % (kk[0], kk[1], kk[2], str(vv).lower()) for kk, vv in sorted(env.items())),
+                    " or ".join(sorted(str(x).lower() for x in rs)) + (" (it depends on a question the helper does not ask)" if len(rs) > 1 else ""), str(got).lower()))
+    if not seen_any:
+        return None
+    return (True, "iterator loop over both element ranges: every complete path of a twice-unrolled range gives the lexicographic result")
+
+
 def _helper_lex_ok(db, helper_qn):
     """is the two-argument helper a lexicographic comparison of its arguments' element ranges?  (True, how) | (False, why) | (None, why)"""
     fns = [f for f in db.fns(helper_qn) if len(f.get("params", [])) == 2 and f.get("body") is not None]
@@ -362,6 +503,9 @@ def _helper_lex_ok(db, helper_qn):
     mm = _helper_mismatch(ps, a, b)
     if mm is not None:
         return mm
+    il = _helper_iter_loop(ps, a, b, same_len=(u.ty(fn["params"][0]["t"]) == u.ty(fn["params"][1]["t"])))
+    if il is not None:
+        return il
     for p in ps:
         begins = {("#%d:begin" % i): sx.show(e[1][0]) for i, e in enumerate(p.events, 1) if e[0].split("<")[0].endswith("::begin") or e[0].split("<")[0].endswith("::cbegin")}
 
